@@ -24,6 +24,7 @@ META = {
 }
 META["explanation"] += " " + '(PR-consumed) a value or expression text is taken as a number only when the scanner consumed all of it: the cursor form of StringToNumber is followed by a comparison of the cursor with the end, and the cursor-less overload is not used outside Digit.hpp.'
 META["explanation"] += " " + '(SB-climb) on every path from an application of an operator back to the head of the climbing loop of evaluate() the test previous_oper < next operator was passed on its true edge, in the direct and in the recursive branch alike. (SB-powsign) after the magnitude of a power is computed the result is negated only under base-negative AND exponent-odd (must-analysis over the boolean locals known true). (REAL-trunc) a Real operand of ^ is truncated to an integer only next to a test of whether it has a fractional part.'
+META["explanation"] += " " + '(TS-expr) each (left kind, right kind) arm of QExpression += -= *= /= leaves Type naming the member it wrote. (PR-spanstart) the text span of an operand the number scanner rejected starts at a cursor saved before the scan.'
 
 DOC_NAMES = {
     "exponent": ["Exponent"], "remainder": ["Remainder"], "multiplication": ["Multiplication"],
@@ -216,6 +217,12 @@ def run(ctx):
 
     # ---------------- REAL-trunc
     rules.append(rule_real_trunc(ctx, m))
+
+    # ---------------- TS-expr
+    rules.append(rule_expr_kind(ctx, m))
+
+    # ---------------- PR-spanstart
+    rules.append(rule_span_start(ctx, m))
 
     # ---------------- X-symbols
     r = Rule("X-symbols", "getOperation maps every operator symbol to the operator of that name", floor=14)
@@ -702,4 +709,135 @@ def rule_real_trunc(ctx, m):
              "the function compares `%s` with its own truncation and branches on the answer" % operand if tested is not None else
              "`%s` is truncated to an integer and nothing asks whether it had a fractional part: the power is computed on a different number (2.5^2 = 4, 2^2.5 = 4)" % operand,
              f.loc(sites[0]))
+    return r
+
+
+
+def rule_expr_kind(ctx, m):
+    """TS-expr: a QExpression is a tagged number: Type says which member of Value.Number holds the value.  The arithmetic
+    operators are a two-level dispatch (kind of this, kind of the right operand); an arm that leaves its result in a member whose
+    kind differs from the kind this object had on entry to the arm has to say so (Type = that kind, unconditionally inside the arm),
+    and an arm that sets Type unconditionally must have left the result in that kind's member.  Otherwise the bits of a signed or
+    real result are read back as an unsigned number (3 - (2 - 5 + 10) renders 18446744073709551612)."""
+    r = Rule("TS-expr", "each (left kind, right kind) arm of the QExpression arithmetic leaves Type naming the member it wrote", floor=20)
+    KIND = {"Natural": "NaturalNumber", "Integer": "IntegerNumber", "Real": "RealNumber"}
+    for f in m.functions:
+        if f.inst or not f.cfg or f.cls != "Qentem::QExpression" or f.name not in ("operator+=", "operator-=", "operator*=", "operator/="):
+            continue
+        par = f.parents()
+        outer = [sw for sw in astq.nodes_of(f, "SwitchStmt") if f.text(f.nodes[sw]["cond"]).replace("this.", "") == "Type"]
+        for osw in outer:
+            for olabels, ostmts in astq.switch_arms(f, osw):
+                lk = [(l[0] or "").split("::")[-1] for l in olabels]
+                if len(lk) != 1 or lk[0] not in KIND.values():
+                    continue
+                left_kind = lk[0]
+                for s_ in ostmts:
+                    for isw in astq.nodes_of(f, "SwitchStmt", s_):
+                        if "right" not in f.text(f.nodes[isw]["cond"]):
+                            continue
+                        for ilabels, istmts in astq.switch_arms(f, isw):
+                            rk = [(l[0] or "").split("::")[-1] for l in ilabels]
+                            if not rk or not all(x in KIND.values() for x in rk):
+                                continue
+                            arm_nodes = [x for st in istmts for x in f.walk(st)]
+                            arm_set = set(arm_nodes)
+                            writes = []
+                            types = []
+                            for x in arm_nodes:
+                                n = f.nodes[x]
+                                if n["k"] in ("BinaryOperator", "CompoundAssignOperator") and n.get("op", "").endswith("=") and n["op"] not in ("==", "!=", "<=", ">="):
+                                    lt = f.text(n["ch"][0]).replace("this.", "")
+                                    mm = [k for k in KIND if lt == "Value.Number." + k]
+                                    if mm:
+                                        writes.append((x, mm[0]))
+                                    if lt == "Type":
+                                        # unconditional inside the arm?
+                                        cond = False
+                                        up = par.get(x)
+                                        while up is not None and up in arm_set:
+                                            if f.nodes[up]["k"] in ("IfStmt", "ConditionalOperator"):
+                                                cond = True
+                                            up = par.get(up)
+                                        types.append((x, f.text(n["ch"][1]).split("::")[-1], cond))
+                            if not writes:
+                                continue
+                            ctx.note_fn(f)
+                            last_member = writes[-1][1]
+                            uncond = [t for t in types if not t[2]]
+                            final = uncond[-1][1] if uncond else None
+                            if final is not None:
+                                ok = final == KIND[last_member]
+                                why = "result in Number.%s, Type set to %s" % (last_member, final)
+                            elif KIND[last_member] != left_kind:
+                                ok = False
+                                why = "the result is left in Number.%s while the object stays %s: nothing in the arm sets Type to %s, the bits are read back as the wrong kind" % (last_member, left_kind, KIND[last_member])
+                            else:
+                                ok = True
+                                why = "result in Number.%s, the kind the object already has" % last_member
+                            r.ob(f.sig, "%s %s %s" % (left_kind, f.name[len("operator"):], "/".join(rk)), ok, why, f.loc(writes[-1][0]))
+    return r
+
+
+
+def rule_span_start(ctx, m):
+    """PR-spanstart: the number scanner advances the cursor it is given, also when it then rejects the text ("12ab": it stops
+    after 12).  Where an operand that is not a number is recorded as text (Offset / Length of the expression record), the span
+    must start at the operand's first unit, i.e. at a value saved before the scan -- never at the cursor the scanner moved.
+    CFG reachability: from each call of Digit::StringToNumber that takes a cursor by reference, no store into a field named
+    Offset or Length reads that cursor before the cursor is assigned again."""
+    from qlib import dataflow
+    r = Rule("PR-spanstart", "the text span of a rejected number starts at a cursor saved before the number scanner moved it", floor=1)
+    for f in m.functions:
+        if f.inst or not f.cfg or not f.file.endswith("/Template.hpp"):
+            continue
+        blocks = f.blocks()
+        for c in astq.calls(f, "StringToNumber"):
+            args = f.call_args(c)
+            curs = [f.nodes[f.strip(a)] for a in args if f.nodes[f.strip(a)]["k"] == "DeclRefExpr" and f.nodes[f.strip(a)].get("tk") in ("uint", "sint") and f.nodes[f.strip(a)].get("lv")]
+            # the by-reference cursor: the integer lvalue argument that is compared with the end afterwards (PR-consumed) -- take
+            # every integer lvalue argument that is not const-qualified
+            curs = [cn for cn in curs if "const" not in (cn.get("t") or "")]
+            if not curs:
+                continue
+            ctx.note_fn(f)
+            cur = curs[0]
+            start = dataflow.block_of(f, c)
+            if start is None:
+                continue
+            bad = None
+            seen = set()
+            work = [(start, True)]
+            while work and bad is None:
+                bid, first = work.pop()
+                if (bid, first) in seen:
+                    continue
+                seen.add((bid, first))
+                after = not first
+                killed = False
+                for e in blocks[bid]["el"]:
+                    x = e.get("n")
+                    if not isinstance(x, int) or e.get("k"):
+                        continue
+                    if x == c:
+                        after = True
+                        continue
+                    if not after:
+                        continue
+                    n = f.nodes[x]
+                    if n["k"] == "BinaryOperator" and n["op"] == "=":
+                        lh = f.nodes[f.strip(n["ch"][0])]
+                        if lh["k"] == "DeclRefExpr" and lh.get("d") == cur["d"]:
+                            killed = True
+                            break
+                        if lh["k"] in ("MemberExpr", "CXXDependentScopeMemberExpr") and lh.get("n") in ("Offset", "Length") and \
+                                any(f.nodes[y]["k"] == "DeclRefExpr" and f.nodes[y].get("d") == cur["d"] for y in f.walk(n["ch"][1])):
+                            bad = x
+                            break
+                if bad is not None or killed:
+                    continue
+                for (s_, k_, p_) in dataflow.successors(f, blocks[bid]):
+                    work.append((s_, False))
+            r.ob(f.q, f.text(c)[:60], bad is None, "no span field is computed from `%s` after the scan" % cur["n"] if bad is None else
+                 "`%s` records the operand's text from `%s`, which the scanner has already moved past the leading digits: \"12ab\" is kept as \"ab\"" % (f.text(bad)[:60], cur["n"]), f.loc(bad) if bad is not None else f.loc(c))
     return r
